@@ -1,0 +1,22 @@
+//go:build verif
+
+package status
+
+// Contracts for gocv (see /verif/DESIGN.md). Comment-only file.
+
+//@ package status
+//@ import ocispec "github.com/opencontainers/image-spec/specs-go/v1"
+//@ import sync "sync"
+//@
+//@ pure doneChan(t *Tracker, d ocispec.Descriptor) chanunit = as(syncVal(lockOf(t, "status"), box(K(d))), chanunit)
+//@ pure tracked(t *Tracker, d ocispec.Descriptor) bool = syncHas(lockOf(t, "status"), box(K(d)))
+//@
+//@ pure trackerRI(t *Tracker) bool = t != nil && (forall k any :: syncHas(lockOf(t, "status"), k) ==> typeIs(syncVal(lockOf(t, "status"), k), chanunit) && as(syncVal(lockOf(t, "status"), k), chanunit) != nil)
+//@
+//@ func (*Tracker).TryCommit
+//@   requires [ri] trackerRI(t)
+//@   ensures [C01,C04:ri] trackerRI(t)
+//@   ensures [C01,C04:single-owner] result1 == !old(tracked(t, target))
+//@   ensures [C01,C04:channel-of-key] tracked(t, target) && result0 == doneChan(t, target)
+//@   ensures [C01,C04:entries-stable] forall m *sync.Map, k any :: old(syncHas(m, k)) ==> syncHas(m, k) && syncVal(m, k) == old(syncVal(m, k))
+//@   modifies ghost.syncHas, ghost.syncVal, ghost.syncVersion, alloc
